@@ -45,9 +45,16 @@ mut("M06_swap_forgets_allocator", ["C07"],
 mut("M07_copy_ctor_ignores_soccc", ["C07"],
     "        : alloc_base (alloc_traits::select_on_container_copy_construction (other.allocator_ref ()))",
     "        : alloc_base (other.allocator_ref ())")
-mut("M08_constexpr_inline_buffer_wrong_count", ["C08"],
-    "          return set_data_ptr (alloc_interface::allocate (InlineCapacity));",
-    "          return set_data_ptr (alloc_interface::allocate (InlineCapacity + 1));")
+# (an earlier M08 allocated InlineCapacity + 1 elements for the constant-evaluated "inline" buffer
+#  and deallocated InlineCapacity: neither g++ 12 nor clang 14 checks the count passed to
+#  deallocate during constant evaluation, so that change is not observable by C08's executor and
+#  was replaced by one that is)
+mut("M08_constexpr_temporary_never_released", ["C08"],
+    "          m_interface.destroy (m_data_ptr);\n          m_interface.deallocate (m_data_ptr, sizeof (value_ty));\n        }\n\n        GCH_NODISCARD GCH_CPP20_CONSTEXPR\n        const value_ty&\n        get (void) const noexcept\n        {\n          return *m_data_ptr;",
+    "          m_interface.destroy (m_data_ptr);\n        }\n\n        GCH_NODISCARD GCH_CPP20_CONSTEXPR\n        const value_ty&\n        get (void) const noexcept\n        {\n          return *m_data_ptr;")
+mut("M08b_constexpr_insert_forgets_size", ["C08"],
+    "              uninitialized_move (pos, original_end, end_ptr ());\n              increase_size (tail_size);\n\n              std::fill_n (pos, tail_size, tmp.get ());\n\n              return pos;",
+    "              uninitialized_move (pos, original_end, end_ptr ());\n\n              std::fill_n (pos, tail_size, tmp.get ());\n\n              return pos;")
 mut("M09_move_ctor_smaller_N_never_steals", ["C09"],
     "        if (other.has_allocation ())\n        {\n          set_data (other.data_ptr (), other.get_capacity (), other.get_size ());\n          other.set_default ();\n        }\n        else\n        {\n          if (InlineCapacity < other.get_size ())",
     "        if (other.has_allocation () && other.get_size () == 0)\n        {\n          set_data (other.data_ptr (), other.get_capacity (), other.get_size ());\n          other.set_default ();\n        }\n        else\n        {\n          if (InlineCapacity < other.get_size ())")
